@@ -183,6 +183,21 @@ def fam_reply_behind_stall_then_stop(rng, ident):
     return scn.line("scn", ident, s, extra="nt=1 family=reply-behind-stalled-writer-then-close")
 
 
+def fam_gave_up_at_notifier(rng, ident):
+    """callers give up (cancel / deadline) while their frame is with the writer and the send notifier is still running; the
+    frame goes out afterwards: the pending-call table must be empty once they have returned, and stay so"""
+    how = rng.choice(["cancel", "deadline"])
+    k = 1 + rng.below(3)
+    s = ["park/SendNotifier/1"]
+    for i in range(1, k + 1):
+        s.append(scn.call(i, timeout=(12 if how == "deadline" else 0), nowait=True))
+    s.append("waitpark/SendNotifier")
+    for i in range(1, k + 1):
+        s.append(scn.cancel(i) if how == "cancel" else "await/c%d" % i)
+    s += ["sample/gaveup", "release/SendNotifier", "settle", "sleep/3", "settle", "sample/open"]
+    return scn.line("scn", ident, s, max_=2000, extra="nt=1 family=gave-up-while-notifier-runs")
+
+
 def explore(ctx):
     rng, tier = ctx["rng"], ctx["tier"]
     if ctx.get("replay"):
@@ -212,6 +227,8 @@ def explore(ctx):
             lines.append(fam_cancel_behind_busy_writer(rng, "q%d" % n)); n += 1
         for _ in range({"quick": 12, "thorough": 200, "search": 30}[tier]):
             lines.append(fam_reply_behind_stall_then_stop(rng, "y%d" % n)); n += 1
+        for _ in range({"quick": 8, "thorough": 100, "search": 16}[tier]):
+            lines.append(fam_gave_up_at_notifier(rng, "g%d" % n)); n += 1
     triples, tie = C.run_both(ctx, "TestVerifScn", lines, go_timeout=1500)
     fams = {}
     for l in lines:
